@@ -243,6 +243,37 @@ def linear (xs : List Rat) (rows : List (List Rat)) (dim : Nat) (xnew : List Rat
     else if maxL xnew > maxL sx then .error .above
     else .ok (xnew.map (fun x => linearAt sx sy dim x))
 
+/-! ## Bilinear interpolation on a rectangular grid (`spatial_interpolation.regular_grid_interpolator` = SciPy
+`RegularGridInterpolator`, method "linear", after the flips that make both axes increasing) -/
+
+/-- value at `(x, y)`: `grid[k][i]` is the value at `(xs[i], ys[k])`; linear in `x` along every grid row, then
+linear in `y` across the rows -/
+def bilinearAt (xs ys : List Rat) (grid : List (List Rat)) (x y : Rat) : Rat :=
+  (linearAt ys (grid.map (fun row => linearAt xs (row.map (fun v => [v])) 1 x)) 1 y).getD 0 0
+
+/-- `spatial_interpolation.interpolate(grid_x, grid_y, values, x, y, kind="regular_grid_interpolator")` for a list of
+positions: a position outside the grid is refused (`interpolate` checks the boundaries itself) -/
+def regularGrid (xs ys : List Rat) (grid : List (List Rat)) (pts : List (Rat × Rat)) : Except Err (List Rat) :=
+  if grid.length != ys.length || grid.any (fun r => r.length != xs.length) then .error .shape
+  else if xs.length < 2 || ys.length < 2 then .error .short
+  else if !(strictInc xs && strictInc ys) then .error .unsorted
+  else if pts.any (fun p => p.1 < minL xs || p.2 < minL ys) then .error .below
+  else if pts.any (fun p => p.1 > maxL xs || p.2 > maxL ys) then .error .above
+  else .ok (pts.map (fun p => bilinearAt xs ys grid p.1 p.2))
+
+/-! ## Low-precision solar ephemeris (`planetary_motion.gsdtime_sun`): the two angles that are rational in the
+date — the mean longitude `vl` and the Greenwich sidereal angle `gstr`; the constants are read from the source -/
+
+/-- `np.mod(q, 360)` -/
+def fmod360 (q : Rat) : Rat := q - 360 * ((q / 360).floor : Rat)
+
+/-- `vl = np.mod(c0 + rate * jd, 360)` -/
+def sunMeanLongitude (c0 rate jd : Rat) : Rat := fmod360 (c0 + rate * jd)
+
+/-- `gstr = np.mod(c0 + rate * jd + 360 * frac + 180, 360)` (`jd` whole days since the epoch − 0.5, `frac` the
+fraction of the day) -/
+def gmstAngle (c0 rate jd frac : Rat) : Rat := fmod360 (c0 + rate * jd + 360 * frac + 180)
+
 /-! ## Not-a-knot cubic spline (`interpolation.cubic` = SciPy `interp1d(kind="cubic")`, and
 `interpolation.interpolated_univariate_spline` = FITPACK's interpolating spline of degree 3) — specification
 
